@@ -31,8 +31,11 @@ def install(I):
     I.models.update(MODELS)
 
 
+NOSTOP = {'io.Copy'}      # modelled only for some argument types; the SSA must stay available
+
+
 def stop_list():
-    out = [k for k in MODELS if isinstance(k, str)]
+    out = [k for k in MODELS if isinstance(k, str) and k not in NOSTOP]
     out += ['pkg:' + p for p in STOP_PKGS]
     return out
 
@@ -876,6 +879,7 @@ def _strconv_formatuint(I, st, args):
 
 
 from . import reflectmodel  # noqa: E402  (registers the reflect models)
+from . import osmodel  # noqa: E402  (registers the filesystem model)
 
 
 # time (uninterpreted) ---------------------------------------------------------------------
